@@ -134,6 +134,8 @@ def parse(path):
                     u.setdefault("not_covered", []).append(v)
                 elif k == "expect":
                     u.setdefault("expects", []).append(v)
+                elif k == "expect-derive":
+                    u.setdefault("expect_derives", []).append(v)
                 elif k == "paired_kani":
                     u.setdefault("paired_kani", []).extend(v.split())
                 else:
@@ -198,6 +200,19 @@ def apply_edits(item, edits, twin_false=False, prelets=None):
     for e in edits:
         k = e["kind"]
         at = e["attrs"]
+        # loop-attached edits of a function that has no loop any more (the loop was replaced by straight-line code): skipped
+        # and logged as `lost-loop`; the driver then accepts only totality failures (overflow, shift, index, precondition)
+        # of that item as violations -- they cannot be caused by a missing invariant -- and calls anything else undecided
+        loopish = (k in ("desugar-for", "desugar-for-indexed")) or (k == "contract" and re.match(r"(loop|loop-end|after-loop):", at.get("at", "")))
+        if loopish:
+            try:
+                nloops = len(item.loops())
+            except Exception:
+                nloops = -1
+            if nloops == 0:
+                item.log.append({"kind": "lost-loop", "edit": k + ":" + at.get("at", at.get("loop", "")),
+                                 "why": "the function has no loop any more; loop contract not attached"})
+                continue
         if k in ("lift-block", "lift-stmts", "lift-closure") and prelets:
             # right after the lift (before contract text with its own braces is inserted)
             _apply_one_lift(item, e)
@@ -250,6 +265,10 @@ def apply_edits(item, edits, twin_false=False, prelets=None):
                 if twin_false:
                     text = _with_false(text)
                 item.insert_at_signature(text)
+            elif where == "body-start":
+                # code (not ghost) at the very start of the body, e.g. `let mut x = x0;` for a `mut x` parameter that the
+                # signature edit renamed to x0; must come before contract text with braces of its own is inserted
+                item.prepend_stmts(text, kind="contract")
             elif where.startswith("after-loop:"):
                 item.insert_after_loop(int(where[11:]), text)
             elif where.startswith("loop-end:"):
@@ -313,6 +332,44 @@ def generate(u, repo, specs_dir, twin_of=None, extra="", prelets=None):
         hits = rsx.find_seq(toks, rsx.texts(rsx.tokenize(txt)))
         if len(hits) != 1:
             raise rsx.LostAnchor("expected text `%s` found %d times in %s" % (txt.strip(), len(hits), rel.strip()))
+    # `expect-derive: file :: Type :: Trait ...`: the type's own attributes derive the traits and the file has no hand-written
+    # `impl Trait for Type` -- checks an assumption such as "V's Eq is structural equality" against the tree under test
+    for ex in u.get("expect_derives", []):
+        parts = [x.strip() for x in ex.split("::")]
+        rel, ty, traits = parts[0], parts[1], parts[2].split()
+        toks = rsx.tokenize(open(rsx.resolve_source(repo, rel), encoding="utf-8").read())
+        T = rsx.texts(toks)
+        pos = [i for i in range(1, len(T)) if T[i] == ty and T[i - 1] in ("struct", "enum")]
+        if len(pos) != 1:
+            raise rsx.LostAnchor("expect-derive: type `%s` defined %d times in %s" % (ty, len(pos), rel))
+        # walk back over `pub` and the attribute groups in front of the definition
+        j = pos[0] - 1
+        if j > 0 and T[j - 1] == "pub":
+            j -= 1
+        derived = set()
+        while j >= 2 and T[j - 1] == "]":
+            d = 0
+            k2 = j - 1
+            while k2 >= 0:
+                if T[k2] == "]":
+                    d += 1
+                elif T[k2] == "[":
+                    d -= 1
+                    if d == 0:
+                        break
+                k2 -= 1
+            if k2 < 1 or T[k2 - 1] != "#":
+                break
+            grp = T[k2:j]
+            if len(grp) > 2 and grp[1] == "derive":
+                derived |= set(x for x in grp if x[0].isalpha())
+            j = k2 - 1
+        for tr in traits:
+            if tr not in derived:
+                raise rsx.LostAnchor("expect-derive: `%s` is not derived for `%s` in %s (hand-written impl? the unit assumes the derived one)" % (tr, ty, rel))
+            for i in range(len(T) - 3):
+                if T[i] == "impl" and T[i + 1] == tr and T[i + 2] == "for" and T[i + 3] == ty:
+                    raise rsx.LostAnchor("expect-derive: hand-written `impl %s for %s` in %s" % (tr, ty, rel))
     for idx, it in enumerate(u["items"]):
         item = rsx.extract(repo, it["relpath"], it["steps"])
         contracted = apply_edits(item, it["edits"], twin_false=(twin_of == idx), prelets=(prelets or {}).get(idx))
